@@ -40,6 +40,66 @@ ENGINES = [
      "kind_free_text": "differential build-and-run over feature switches, standards, compilers, header variants"},
 ]
 
+FSM_NOTE = ("trusts the harness's own shadow model (harness/fsm_track.hpp) which is built only from the harness's actions and from what callbacks, "
+            "control objects, logger records and public observers show; exploration is random/enumerative, so behaviours needing longer or rarer "
+            "histories than generated are not seen; N <= 8 states")
+FSM_TECH = "runtime monitoring: online trace monitors inside instrumented user callbacks + per-call oracles at API boundaries, on seeded random histories"
+
+def fsm(text, tech=FSM_TECH, note=FSM_NOTE):
+    return ("fsmmon", text, note, tech)
+
+CHECKS.update({
+    "C01": fsm("enter/exit pairing automaton per instance, advanced on every lifecycle delivery and compared with activeStateId()/isActive(i)/isActive() inside "
+               "every callback and after every API call (update, react, query, change*, immediate*, plan edits, reports, save/load, replay, enter/exit, copy, "
+               "destruction) over 16 machine configurations; held on the histories counted in the evidence."),
+    "C02": fsm("per processing call: the request each guard round evaluates must be the latest one issued (harness-tracked), the applied exit/enter/reenter must be "
+               "exactly that of the last surviving round, requests change nothing when made (full observer comparison), nothing is applied outside processing points."),
+    "C03": fsm("structure of every guard round (exit guard of the active state, then entry guard of the destination unless cancelled; pendingTransition = request under "
+               "evaluation; no enter/exit between guards; vetoed destinations never entered; fallback to the last survivor; no guards in load/replay) on random "
+               "histories plus a complete enumeration of guard decisions for N=3, L<=2 (quick) / L<=3 and N=2,L=4 (thorough).",
+               tech="runtime monitoring: online trace monitors + bounded-exhaustive enumeration of guard decisions executed on the real code"),
+    "C04": fsm("guard rounds per call counted online (violation at round L+1 / activation round L+2, so a runaway loop is reported, not timed out); final state must be "
+               "chosen among survivors; a request left over at the limit must be the pending transition of the first round of the next processing call; same "
+               "enumeration as C03 plus ping-pong guard profiles.",
+               tech="runtime monitoring: online round counters + bounded-exhaustive enumeration of guard decisions executed on the real code"),
+    "C05": fsm("exact phase sequence of update()/react() (root/state order, once each, active state only, before any guard/exit/enter), address identity of the event "
+               "object in every react/query callback, query() delivers to root and active state once and leaves all observers and the serialized form unchanged."),
+    "C06": fsm("inside every callback: stateId(), context identity (value/reference/pointer/empty contexts), request(), pendingTransition()/currentTransition() against the "
+               "harness's round bookkeeping, isActive(i) for every i against the machine read at the same moment, origin of requests made through the control."),
+    "C07": fsm("every payload carries a unique tag; guards must see the tag of the request under evaluation, enter()/reenter() the tag of the applied survivor, "
+               "previousTransition() likewise; payload-free requests must expose none; six payload types (1, 3, 12, 8(double), 32 aligned 16, 64 bytes)."),
+    "C08": fsm("plan-step window per cycle: fires (logger records not caused by the harness, or plan difference when no logger) must be legal (origin active, success "
+               "outstanding, nothing of another origin ahead), the plan afterwards = plan before minus fired tasks in order, reports consumed; converse: head task of a "
+               "succeeding active state must fire."),
+    "C09": fsm("planSucceeded/planFailed deliveries checked against outstanding reports, plan emptiness, 'task added since activation', one per cycle, no fire with "
+               "planFailed, plan empty afterwards, converse for failure; instances are placement-constructed over 0x00/0xFF/0x01/0xAA/0x55/random memory."),
+    "C10": ("contmon+fsmmon",
+            "TaskListT against a slot model after every operation (21 capacities x 3 payload kinds, leak probes) and, on real machines, Plan/CPlan iteration, first()/last()/bool, "
+            "append results at and below capacity, iterator removal while iterating, clear, consumption by firing, outcome clearing and clear-then-refill leak probes compared "
+            "with the harness's list after every edit and at every observation point.",
+            "trusts the reference models in harness/contmon.cpp and harness/fsm_track.hpp", 
+            "runtime monitoring: reference-model comparison after every operation (containers) + online plan read-back in instrumented callbacks"),
+    "C11": fsm("previousTransition() after every call = the applied survivor (origin, destination, payload) or empty; a replica with hostile guards is driven only by "
+               "replayEnter/replayTransition with those destinations and compared after every step; replayTransition(INVALID) must change nothing."),
+    "C12": fsm("save() of the authority (observers and canary bytes unchanged, no bits beyond capacity) loaded into a loader put in an arbitrary state (incl. inactive, with "
+               "outstanding request/plan, hostile guards): exact exit/enter/reenter trace, resulting activity, canonical bytes per activity. (All pairs for larger N: see C14's engine once built.)"),
+    "C15": fsm("for every delivery to a state with k=0..3 injections: each injection and the state exactly once, I1..Ik,S for entry-type callbacks and S,Ik..I1 for exit-type ones."),
+    "C16": fsm("with a recording logger: every delivery announced by exactly one method record before any user code, every record followed by its delivery, one matching "
+               "record per changeTo/cancel/succeed/fail; differential: identical decision streams with logging compiled out / in / verbose and logger attached "
+               "throughout / never / toggled must give identical per-history digests.",
+               tech="runtime monitoring: online log-vs-delivery monitor + differential execution across logging configurations"),
+    "C17": fsm("copy construction runs no callback and yields equal observers/serialized form; the copy and the original, fed the same operations and decisions, must produce "
+               "identical traces without disturbing each other; the same histories over six memory pre-fill patterns must give identical digests; valgrind memcheck "
+               "with the instance memory marked undefined must report no uninitialised-value use inside ffsm2 frames.",
+               tech="runtime monitoring: copy/prefill differential execution + valgrind memcheck"),
+    "C18": fsm("all fsmmon histories under g++ ASan+UBSan with fatal reports (thorough: also clang++), valgrind memcheck, a build with operator new/malloc family wrapped and "
+               "counted during library calls, and nm inspection of an all-API object file; extremes included (plans at capacity, N=1..8, payload alignments 1..16).",
+               tech="sanitizers (ASan, UBSan), valgrind memcheck, allocation counters over the monitored workloads",
+               note="a clean run is 'no report on these executions', not memory safety; N=255 machines and container extremes are covered by the C14/C20/C13 engines"),
+})
+ENGINES.append({"name": "fsmmon", "path": "harness/fsmmon.cpp (+fsm_*.hpp), vlib/fsm.py", "serves_properties": ["C01","C02","C03","C04","C05","C06","C07","C08","C09","C10","C11","C12","C15","C16","C17","C18"],
+                "kind_free_text": "instrumented machine configurations driven by seeded/enumerated histories with online trace monitors"})
+
 NOT_YET = "check not yet built at this commit (work in progress, see DESIGN.md section 7a); nothing is claimed for it yet"
 
 
